@@ -487,6 +487,21 @@ func (tr *gtTr) binary(x *ast.BinaryExpr, env *venv) ex {
 				}
 			}
 		}
+		// err != nil / err == nil
+		if x.Op == token.EQL || x.Op == token.NEQ {
+			for _, pr := range [][2]ast.Expr{{x.X, x.Y}, {x.Y, x.X}} {
+				if isIdent(unparen(pr[1]), "nil") && env.lookup("nil") == nil {
+					a := tr.expr(pr[0], env)
+					if !a.typ.isErr {
+						gtFail("comparison of a %s with nil is outside the subset", a.typ.name)
+					}
+					if x.Op == token.NEQ {
+						return ex{binds: a.binds, code: a.code, typ: tBool}
+					}
+					return ex{binds: a.binds, code: "(negb " + a.code + ")", typ: tBool}
+				}
+			}
+		}
 		a := tr.expr(x.X, env)
 		b := tr.expr(x.Y, env)
 		unify(&a, &b, "comparison")
@@ -948,6 +963,10 @@ func (tr *gtTr) conversion(to *gtype, arg ast.Expr, env *venv) ex {
 			return ex{binds: a.binds, code: a.code, typ: to}
 		}
 		return ex{binds: a.binds, code: a.code, typ: to, k: a.k}
+	case to.kind == kString && to != tBytes && a.typ.kind == kSlice && a.typ.elem.kind == kInt && a.typ.elem.bits == 32 && a.typ.elem.signed:
+		// string([]rune): UTF-8 encoding is not part of the vocabulary here; the conversion is the parameter f_string_runes
+		tr.fn.addAbstract(gtAbstract{name: "f_string_runes", typ: "list Z -> bstr"})
+		return ex{binds: a.binds, code: "(f_string_runes " + a.code + ")", typ: tString}
 	case to.kind == kString && a.typ.kind == kInt:
 		gtFail("string(rune) is outside the subset")
 	}
@@ -973,6 +992,18 @@ func (tr *gtTr) library(pkg, name string, c *ast.CallExpr, env *venv) ex {
 		}
 		tr.fn.preds[predParam[name]] = true
 		return ex{binds: a.binds, code: "(" + predParam[name] + " " + a.code + ")", typ: tBool}
+	case pkg == "errors" && name == "New":
+		// an error value: only "is not nil" is modelled; the message must still be evaluated (it may panic)
+		need(1)
+		a := tr.expr(c.Args[0], env)
+		if a.typ.kind != kString {
+			gtFail("errors.New of a non-string")
+		}
+		if len(a.binds) > 0 {
+			d := tr.fresh()
+			return ex{binds: mergeBinds(a.binds, []gbind{{d, "Some " + paren(a.code)}}), code: "true", typ: tErr}
+		}
+		return ex{code: "true", typ: tErr}
 	case pkg == "unicode/utf8" && name == "RuneStart":
 		need(1)
 		a := tr.expr(c.Args[0], env)
@@ -1287,8 +1318,22 @@ func (tr *gtTr) makeCall(c *ast.CallExpr, env *venv) ex {
 		gtFail("make: arity")
 	}
 	t := tr.g.resolveType(tr.p, tr.f, c.Args[0], 0)
+	if t.kind == kSlice && t.supported() && len(c.Args) >= 2 {
+		// make([]T, 0, cap): the empty slice (the capacity is not observable in the subset)
+		if n, isInt := intLit(c.Args[1]); isInt && n == 0 {
+			for _, a := range c.Args[2:] {
+				if e := tr.expr(a, env); len(e.binds) > 0 || e.typ.kind != kInt {
+					gtFail("make: capacity argument")
+				}
+			}
+			if t.usesValue() {
+				tr.fn.usesV = true
+			}
+			return ex{code: "(@nil " + paren(t.elem.coq()) + ")", typ: t, fresh: true}
+		}
+	}
 	if t.kind != kMap || !t.supported() {
-		gtFail("make(%s) is outside the subset (only maps)", t.name)
+		gtFail("make(%s) is outside the subset (only maps, and slices of length 0)", t.name)
 	}
 	if t.usesValue() {
 		tr.fn.usesV = true
